@@ -243,7 +243,17 @@ func (v *Verifier) VerifyFunc(key string, c *Contract, class map[string]string) 
 			e.inputs[n] = pv.L[i]
 		}
 		e.params[p.Name()] = pv
+		if len(args) == 0 && fn.Signature.Recv() != nil {
+			e.params["this"] = pv
+		}
 		args = append(args, pv)
+	}
+	if fn.Signature.Recv() != nil {
+		for i, n := range c.ImplAlias {
+			if i+1 < len(args) {
+				e.params[n] = args[i+1]
+			}
+		}
 	}
 	// memory that exists at entry holds well-formed values of its type
 	seenWF := map[string]bool{}
